@@ -1,9 +1,779 @@
 /-
-  StreamLemmas.lean — helper lemmas for C09 (streaming ≡ static).
+  StreamLemmas.lean — helper lemmas for C09 (streaming ≡ static) and for the ring invariant C10 uses.
+
+  The common yardstick of the two implementations is the *walk* of a transport from the start
+  position: `trAt W k` = the transport after `k` `increment_position` calls.  The static sound is
+  always three steps ahead of what is heard (`StaticSound::new` primes the resampler with three
+  frames), the streaming decoder `pushes − 1` steps; the ring holds the entries `pops … pushes − 1`
+  of the sequence `ringSeq` (a zero "previous" frame, then one entry per step of the walk).
 -/
 import KiraModel.Proofs.StaticLemmas
+import KiraModel.Proofs.LifecycleLemmas
+import KiraModel.Proofs.TransportLemmas
 import KiraModel.Proofs.DecoderLemmas
 import KiraModel.Model.StreamingSound
 
 namespace K
+namespace Streaming
+
+open StaticSound
+open Wav (Err)
+open Dec (Decoder)
+
+/-! ### the world both sounds play: audio data, slice, start transport -/
+
+/-- the audio (all frames the decoder stands for / the static sound holds), the slice, and the transport
+    both sounds start from (start position and loop region from the settings, playing) -/
+structure World where
+  frames : Array (Frame ℝ)
+  slice : Option (Nat × Nat)
+  t0 : Transport
+
+namespace World
+
+/-- `num_frames`: frames of the slice -/
+def n (W : World) : Nat :=
+  match W.slice with
+  | some (a, b) => b - a
+  | none => W.frames.size
+
+/-- first frame of the slice in the data -/
+def start (W : World) : Nat :=
+  match W.slice with
+  | some (a, _) => a
+  | none => 0
+
+/-- in-domain: the slice lies inside the data, the loop region (if any) is valid, the transport is fresh -/
+structure Ok (W : World) : Prop where
+  slice_ok : match W.slice with
+    | some (a, b) => a ≤ b ∧ b ≤ W.frames.size
+    | none => True
+  valid : W.t0.ValidLoop W.n
+  playing : W.t0.playing = true
+
+/-- the frame both sounds fetch for play-head position `p`: data frame `slice.start + p` inside the
+    slice, silence outside -/
+noncomputable def srcAt (W : World) (p : Nat) : Frame ℝ :=
+  if p < W.n then (W.frames[p + W.start]?).getD Frame.zero else Frame.zero
+
+/-- `increment_position` as a total function (it cannot fault with a valid loop region) -/
+def incr (W : World) (t : Transport) : Transport :=
+  match t.increment W.n with
+  | .ok t' => t'
+  | .error _ => t
+
+/-- the transport after `k` steps of the walk -/
+def trAt (W : World) : Nat → Transport
+  | 0 => W.t0
+  | k + 1 => W.incr (W.trAt k)
+
+/-- is the walk still playing at step `k`? -/
+def pl (W : World) (k : Nat) : Bool := (W.trAt k).playing
+
+theorem trAt_valid (W : World) (h : W.Ok) : ∀ k, (W.trAt k).ValidLoop W.n ∧ (W.trAt k).loopRegion = W.t0.loopRegion := by
+  intro k
+  induction k with
+  | zero => exact ⟨h.valid, rfl⟩
+  | succ k ih =>
+    obtain ⟨t', h1, h2⟩ := Transport.increment_total (W.trAt k) W.n ih.1
+    have : W.trAt (k + 1) = t' := by simp [trAt, incr, h1]
+    rw [this]
+    refine ⟨?_, by rw [h2, ih.2]⟩
+    unfold Transport.ValidLoop; rw [h2]; exact ih.1
+
+/-- **the walk never faults** -/
+theorem trAt_step (W : World) (h : W.Ok) (k : Nat) : (W.trAt k).increment W.n = .ok (W.trAt (k + 1)) := by
+  obtain ⟨t', h1, _⟩ := Transport.increment_total (W.trAt k) W.n (W.trAt_valid h k).1
+  rw [h1]; simp [trAt, incr, h1]
+
+theorem trAt_stopped (W : World) (k : Nat) (hp : W.pl k = false) : W.trAt (k + 1) = W.trAt k := by
+  have := Transport.increment_stopped (W.trAt k) W.n hp
+  simp [trAt, incr, this]
+
+/-- a transport that has stopped stays stopped -/
+theorem pl_antitone (W : World) (k : Nat) (hp : W.pl k = false) : ∀ d, W.pl (k + d) = false := by
+  intro d
+  induction d with
+  | zero => exact hp
+  | succ d ih =>
+    have := W.trAt_stopped (k + d) ih
+    show (W.trAt (k + d + 1)).playing = false
+    rw [this]; exact ih
+
+theorem pl_of_later (W : World) (j k : Nat) (hjk : j ≤ k) (hp : W.pl k = true) : W.pl j = true := by
+  by_contra hc
+  have hf : W.pl j = false := by simpa using hc
+  have := W.pl_antitone j hf (k - j)
+  rw [show j + (k - j) = k by omega] at this
+  rw [this] at hp; cases hp
+
+/-- a stopped transport stands at or after the end of the sound -/
+theorem stopped_position (W : World) (h : W.Ok) : ∀ k, W.pl k = false → W.n ≤ (W.trAt k).position := by
+  intro k
+  induction k with
+  | zero => intro hp; have := h.playing; simp [pl, trAt] at hp; rw [this] at hp; cases hp
+  | succ k ih =>
+    intro hp
+    cases hk : W.pl k with
+    | false => rw [W.trAt_stopped k hk]; exact ih hk
+    | true =>
+      have hs := W.trAt_step h k
+      have hpk : (W.trAt k).playing = true := hk
+      cases hl : (W.trAt k).loopRegion with
+      | none =>
+        rw [Transport.increment_noLoop _ _ hpk hl] at hs
+        injection hs with hs
+        have hp' : (W.trAt (k + 1)).playing = false := hp
+        rw [← hs] at hp' ⊢
+        simp only [decide_eq_false_iff_not, Nat.not_lt] at hp'
+        exact hp'
+      | some r =>
+        obtain ⟨ls, le⟩ := r
+        have hv : ls < le ∧ le ≤ W.n := by
+          have := (W.trAt_valid h k).1
+          simpa [Transport.ValidLoop, hl] using this
+        rw [Transport.increment_loop _ _ ls le hpk hl hv.1] at hs
+        injection hs with hs
+        have hp' : (W.trAt (k + 1)).playing = false := hp
+        rw [← hs] at hp' ⊢
+        simp only [decide_eq_false_iff_not, Nat.not_lt] at hp'
+        exact hp'
+
+/-- the frame fetched at a stopped step is silence -/
+theorem srcAt_stopped (W : World) (h : W.Ok) (k : Nat) (hp : W.pl k = false) :
+    W.srcAt (W.trAt k).position = Frame.zero := by
+  have := W.stopped_position h k hp
+  unfold srcAt
+  have hn : ¬ (W.trAt k).position < W.n := by omega
+  simp [hn]
+
+/-- where the walk ends: `none` = never (it loops for ever), `some L` = step `L` is the first that is not
+    playing (`L ≥ 1`: a fresh transport plays) -/
+def EndsAt (W : World) (L : Option Nat) : Prop :=
+  match L with
+  | none => ∀ k, W.pl k = true
+  | some L => 1 ≤ L ∧ ∀ k, W.pl k = decide (k < L)
+
+theorem exists_endsAt (W : World) (h : W.Ok) : ∃ L, W.EndsAt L := by
+  by_cases hex : ∃ k, W.pl k = false
+  · classical
+    refine ⟨some (Nat.find hex), ?_, ?_⟩
+    · by_contra hc
+      have h0 : Nat.find hex = 0 := by omega
+      have := Nat.find_spec hex
+      rw [h0] at this
+      have hp := h.playing
+      simp [pl, trAt, hp] at this
+    · intro k
+      by_cases hk : k < Nat.find hex
+      · have := Nat.find_min hex hk
+        simp only [Bool.not_eq_false] at this
+        simp [this, hk]
+      · have hs := Nat.find_spec hex
+        have := W.pl_antitone _ hs (k - Nat.find hex)
+        rw [show Nat.find hex + (k - Nat.find hex) = k by omega] at this
+        simp [this, hk]
+  · refine ⟨none, ?_⟩
+    intro k
+    by_contra hc
+    exact hex ⟨k, by simpa using hc⟩
+
+/-! ### what the static sound's resampler holds after `j` position updates -/
+
+/-- frame of window entry `i` counted from the very first (the resampler starts with four silent entries) -/
+noncomputable def vFrame (W : World) (i : Nat) : Frame ℝ :=
+  if i < 4 then Frame.zero else W.srcAt (W.trAt (i - 4)).position
+
+/-- `frame_index` of window entry `i` -/
+def vIndex (W : World) (i : Nat) : Nat :=
+  if i < 4 then W.t0.position else (W.trAt (i - 4)).position
+
+/-- `time_until_empty` after `j` pushes -/
+def tue (W : World) : Nat → Nat
+  | 0 => 0
+  | j + 1 => if W.pl j then 4 else W.tue j - 1
+
+/-- the resampler after `j` position updates -/
+noncomputable def resAt (W : World) (j : Nat) : Resampler ℝ :=
+  { f0 := ⟨W.vFrame j, W.vIndex j⟩
+    f1 := ⟨W.vFrame (j + 1), W.vIndex (j + 1)⟩
+    f2 := ⟨W.vFrame (j + 2), W.vIndex (j + 2)⟩
+    f3 := ⟨W.vFrame (j + 3), W.vIndex (j + 3)⟩
+    timeUntilEmpty := W.tue j }
+
+theorem tue_closed (W : World) (L : Option Nat) (hL : W.EndsAt L) (j : Nat) :
+    W.tue j = match L with
+      | none => if j = 0 then 0 else 4
+      | some L => if j = 0 then 0 else if j ≤ L then 4 else 4 - (j - L) := by
+  induction j with
+  | zero => cases L <;> simp [tue]
+  | succ j ih =>
+    cases L with
+    | none =>
+      have : W.pl j = true := hL j
+      simp [tue, this]
+    | some L =>
+      obtain ⟨h1, hpl⟩ := hL
+      simp only [tue, hpl j, ih]
+      by_cases hj : j < L
+      · have : j + 1 ≤ L := hj
+        simp [hj, this]
+      · have h2 : ¬ j + 1 ≤ L := by omega
+        simp only [hj, decide_false, Bool.false_eq_true, if_false, h2, Nat.succ_ne_zero]
+        by_cases h0 : j = 0
+        · omega
+        · simp only [h0, if_false]
+          by_cases h3 : j ≤ L
+          · simp only [h3, if_true]; omega
+          · simp only [h3, if_false]; omega
+
+/-- the static sound's stop condition after `j` updates (`!transport.playing && resampler.empty()`) -/
+def staticStops (W : World) (j : Nat) : Bool := !W.pl j && W.tue j == 0
+
+/-! ### what the streaming sound's ring holds -/
+
+/-- the sequence of ring entries: the pre-seeded zero "previous" frame, then one entry per step of the walk -/
+noncomputable def ringSeq (W : World) : Nat → TimestampedFrame ℝ
+  | 0 => ⟨Frame.zero, 0⟩
+  | k + 1 => ⟨W.srcAt (W.trAt k).position, (W.trAt k).position⟩
+
+theorem ringSeq_frame (W : World) (k : Nat) : (W.ringSeq k).frame = W.vFrame (k + 3) := by
+  cases k with
+  | zero => simp [ringSeq, vFrame]
+  | succ k =>
+    have : ¬ k + 1 + 3 < 4 := by omega
+    simp [ringSeq, vFrame, this]
+
+theorem ringSeq_index (W : World) (k : Nat) : (W.ringSeq (k + 1)).index = W.vIndex (k + 4) := by
+  simp [ringSeq, vIndex]
+
+/-- entries `a … m − 1` of the sequence -/
+noncomputable def ringSlice (W : World) (a m : Nat) : List (TimestampedFrame ℝ) :=
+  (List.range' a (m - a)).map W.ringSeq
+
+theorem ringSlice_getElem? (W : World) (a m i : Nat) :
+    (W.ringSlice a m)[i]? = if a + i < m then some (W.ringSeq (a + i)) else none := by
+  unfold ringSlice
+  rw [List.getElem?_map]
+  by_cases h : a + i < m
+  · have : i < m - a := by omega
+    rw [List.getElem?_range' this]
+    simp [h]
+  · have : (List.range' a (m - a)).length ≤ i := by simp; omega
+    rw [List.getElem?_eq_none this]
+    simp [h]
+
+theorem ringSlice_length (W : World) (a m : Nat) : (W.ringSlice a m).length = m - a := by
+  simp [ringSlice]
+
+theorem ringSlice_push (W : World) (a m : Nat) (h : a ≤ m) :
+    W.ringSlice a m ++ [W.ringSeq m] = W.ringSlice a (m + 1) := by
+  unfold ringSlice
+  have : m + 1 - a = (m - a) + 1 := by omega
+  rw [this, List.range'_concat, List.map_append]
+  have e : a + (m - a) = m := by omega
+  simp [e]
+
+theorem ringSlice_pop (W : World) (a m : Nat) (h : a < m) :
+    W.ringSlice a m = W.ringSeq a :: W.ringSlice (a + 1) m := by
+  unfold ringSlice
+  have : m - a = (m - (a + 1)) + 1 := by omega
+  rw [this, List.range'_succ]
+  simp
+
+theorem ringSlice_empty (W : World) (a m : Nat) (h : m ≤ a) : W.ringSlice a m = [] := by
+  unfold ringSlice
+  have : m - a = 0 := by omega
+  simp [this]
+
+end World
+
+/-! ### the static sound along the walk -/
+
+/-- the static sound plays the world `W` forwards -/
+structure StaticIn (W : World) (st : StaticSound ℝ) : Prop where
+  frames : st.frames = W.frames
+  slice : st.slice = W.slice
+  reverse : st.reverse = false
+
+/-- … and has made `j` position updates -/
+structure StaticAt (W : World) (st : StaticSound ℝ) (j : Nat) : Prop extends StaticIn W st where
+  transport : st.transport = W.trAt j
+  resampler : st.resampler = W.resAt j
+
+theorem StaticIn.sliceOk {W : World} {st : StaticSound ℝ} (h : StaticIn W st) (hW : W.Ok) : st.SliceOk := by
+  unfold SliceOk; rw [h.slice, h.frames]; exact hW.slice_ok
+
+theorem StaticIn.nFrames {W : World} {st : StaticSound ℝ} (h : StaticIn W st) : st.nFrames = W.n := by
+  unfold StaticSound.nFrames World.n; rw [h.slice, h.frames]
+  cases W.slice with
+  | none => rfl
+  | some ab => cases ab; rfl
+
+theorem StaticIn.sliceStart {W : World} {st : StaticSound ℝ} (h : StaticIn W st) : st.sliceStart = W.start := by
+  unfold StaticSound.sliceStart World.start; rw [h.slice]
+  cases W.slice with
+  | none => rfl
+  | some ab => cases ab; rfl
+
+/-- what a lookup at play-head position `p` pushes -/
+theorem static_lookup {W : World} {st : StaticSound ℝ} (h : StaticIn W st) (hW : W.Ok) (p : Nat) :
+    ∃ fo, frameAtIndex p st.frames st.slice = .ok fo ∧ fo.getD Frame.zero = W.srcAt p := by
+  have hs := h.sliceOk hW
+  unfold World.srcAt
+  by_cases hp : p < W.n
+  · obtain ⟨f, hf, hg, _⟩ := (frameAtIndex_ok st hs p).1 (by rw [h.nFrames]; exact hp)
+    refine ⟨some f, hf, ?_⟩
+    rw [h.sliceStart, h.frames] at hg
+    simp [hp, hg]
+  · have := (frameAtIndex_ok st hs p).2 (by rw [h.nFrames]; omega)
+    exact ⟨none, this, by simp [hp]⟩
+
+/-- **one position update of the static sound along the walk** (forwards: playback rate not negative) -/
+theorem static_update {W : World} (hW : W.Ok) {st : StaticSound ℝ} {j : Nat} (h : StaticAt W st j)
+    (hr : signNeg st.playbackRate.value = false) :
+    st.updatePosition = .ok { st with transport := W.trAt (j + 1), resampler := W.resAt (j + 1),
+                                       core := if W.staticStops (j + 1) then st.core.markStopped else st.core } := by
+  have hs := h.toStaticIn.sliceOk hW
+  have hbw : ∀ r : Resampler ℝ, isPlayingBackwards { st with resampler := r } = false := by
+    intro r; simp [isPlayingBackwards, h.reverse, hr]
+  have hmove : ∀ r : Resampler ℝ, moveTransport { st with resampler := r } = .ok (W.trAt (j + 1)) := by
+    intro r
+    unfold moveTransport
+    rw [hbw r]
+    simp only [Bool.false_eq_true, if_false]
+    have : numFrames st.frames.size st.slice = .ok W.n := by
+      rw [numFrames_ok st hs, h.toStaticIn.nFrames]
+    simp only [this]
+    show st.transport.increment W.n = _
+    rw [h.transport]; exact W.trAt_step hW j
+  have hf4 : ¬ j + 3 + 1 < 4 := by omega
+  unfold updatePosition pushFrameToResampler
+  cases hp : W.pl j with
+  | true =>
+    have hp' : st.transport.playing = true := by rw [h.transport]; exact hp
+    obtain ⟨fo, hfo, hget⟩ := static_lookup h.toStaticIn hW st.transport.position
+    simp only [hp', if_true, hfo, hmove]
+    have hres : st.resampler.pushFrame (some (fo.getD Frame.zero)) st.transport.position = W.resAt (j + 1) := by
+      rw [h.resampler, hget, h.transport]
+      simp [Resampler.pushFrame, World.resAt, World.vFrame, World.vIndex, World.tue, hp, hf4]
+    rw [hres]
+    have : (!(W.trAt (j + 1)).playing && (W.resAt (j + 1)).empty) = W.staticStops (j + 1) := by
+      simp [World.staticStops, World.pl, Resampler.empty, World.resAt]
+    simp only [this]
+    split <;> rfl
+  | false =>
+    have hp' : st.transport.playing = false := by rw [h.transport]; exact hp
+    simp only [hp', Bool.false_eq_true, if_false, hmove]
+    have hres : st.resampler.pushFrame none st.transport.position = W.resAt (j + 1) := by
+      rw [h.resampler, h.transport]
+      have hz := W.srcAt_stopped hW j hp
+      simp [Resampler.pushFrame, World.resAt, World.vFrame, World.vIndex, World.tue, hp, hf4, hz]
+    rw [hres]
+    have : (!(W.trAt (j + 1)).playing && (W.resAt (j + 1)).empty) = W.staticStops (j + 1) := by
+      simp [World.staticStops, World.pl, Resampler.empty, World.resAt]
+    simp only [this]
+    split <;> rfl
+
+
+theorem markStopped_idem (c : SoundCore ℝ) : c.markStopped.markStopped = c.markStopped := by
+  simp [SoundCore.markStopped, SoundCore.syncShared, Psm.markAsStopped, Psm.playbackState]
+
+theorem World.staticStops_succ (W : World) (j : Nat) (h : W.staticStops j = true) : W.staticStops (j + 1) = true := by
+  simp only [World.staticStops, Bool.and_eq_true, Bool.not_eq_true', beq_iff_eq] at h ⊢
+  obtain ⟨hp, ht⟩ := h
+  have hp1 : W.pl (j + 1) = false := W.pl_antitone j hp 1
+  refine ⟨hp1, ?_⟩
+  simp [World.tue, hp, ht]
+
+theorem World.staticStops_mono (W : World) (j d : Nat) (h : W.staticStops j = true) : W.staticStops (j + d) = true := by
+  induction d with
+  | zero => exact h
+  | succ d ih => exact W.staticStops_succ (j + d) ih
+
+/-- **`k` position updates of the static sound along the walk** -/
+theorem static_updN {W : World} (hW : W.Ok) : ∀ (k : Nat) {st : StaticSound ℝ} {j : Nat}, StaticAt W st j →
+    signNeg st.playbackRate.value = false →
+    updN k st = .ok { st with transport := W.trAt (j + k), resampler := W.resAt (j + k),
+                              core := if 1 ≤ k ∧ W.staticStops (j + k) = true then st.core.markStopped else st.core } := by
+  intro k
+  induction k with
+  | zero =>
+    intro st j h _
+    simp only [updN, Nat.add_zero, Nat.le_zero_eq, Nat.succ_ne_zero, false_and, if_false]
+    rw [← h.transport, ← h.resampler]
+  | succ k ih =>
+    intro st j h hr
+    rw [updN_succ, static_update hW h hr]
+    simp only []
+    have h1 : ∀ c : SoundCore ℝ, StaticAt W ({ st with transport := W.trAt (j + 1), resampler := W.resAt (j + 1), core := c } : StaticSound ℝ) (j + 1) :=
+      fun c => { frames := h.frames, slice := h.slice, reverse := h.reverse, transport := rfl, resampler := rfl }
+    rw [ih (h1 _) hr]
+    have e : j + 1 + k = j + (k + 1) := by omega
+    simp only [e]
+    congr 2
+    by_cases hk : 1 ≤ k
+    · by_cases hs : W.staticStops (j + (k + 1)) = true
+      · have : 1 ≤ k + 1 := by omega
+        simp only [hk, hs, this, and_self, if_true]
+        split <;> simp [markStopped_idem]
+      · have hs1 : ¬ W.staticStops (j + 1) = true := by
+          intro hc
+          have := W.staticStops_mono (j + 1) k hc
+          rw [e] at this; exact hs this
+        simp [hs, hs1]
+    · have hk0 : k = 0 := by omega
+      subst hk0
+      simp
+
+/-! ### the streaming sound's position loop -/
+
+theorem popFrame_eq {σ : Type} (s : Sys σ ℝ) :
+    s.popFrame = { s with ring := { s.ring with items := s.ring.items.drop 1 } } := by
+  unfold Sys.popFrame Ring.pop
+  cases h : s.ring.items with
+  | nil =>
+    simp only [List.drop_nil]
+    have : ({ s.ring with items := [] } : Ring (TimestampedFrame ℝ)) = s.ring := by
+      cases hr : s.ring; simp_all
+    rw [this]
+  | cons x xs => simp
+
+/-- the `while fractional_position >= 1.0` loop pops `⌊frac⌋` entries (as far as there are any) and leaves
+    the fractional part — for every fuel that is large enough -/
+theorem stepPos_spec {σ : Type} : ∀ (fuel : Nat) (s : Sys σ ℝ), 0 ≤ s.frac → ⌊s.frac⌋₊ < fuel →
+    Sys.stepPos fuel s = .ok { s with frac := s.frac - (⌊s.frac⌋₊ : ℝ),
+                                      ring := { s.ring with items := s.ring.items.drop ⌊s.frac⌋₊ } } := by
+  intro fuel
+  induction fuel with
+  | zero => intro s _ h; omega
+  | succ fuel ih =>
+    intro s h0 hf
+    rw [Sys.stepPos]
+    by_cases h1 : (1 : ℝ) ≤ s.frac
+    · have hm : ⌊s.frac⌋₊ = ⌊s.frac - 1⌋₊ + 1 := by
+        have := Nat.floor_sub_one s.frac
+        have h1' : 1 ≤ ⌊s.frac⌋₊ := Nat.le_floor (by simpa using h1)
+        omega
+      simp only [lit_1, h1, if_true]
+      rw [popFrame_eq]
+      have h0' : 0 ≤ s.frac - 1 := by linarith
+      rw [ih _ h0' (by show ⌊s.frac - 1⌋₊ < fuel; omega)]
+      have e1 : s.frac - 1 - (⌊s.frac - 1⌋₊ : ℝ) = s.frac - ((⌊s.frac - 1⌋₊ + 1 : ℕ) : ℝ) := by push_cast; ring
+      have e2 : List.drop ⌊s.frac - 1⌋₊ (List.drop 1 s.ring.items) = List.drop (⌊s.frac - 1⌋₊ + 1) s.ring.items := by
+        rw [List.drop_drop, Nat.add_comm]
+      simp only [hm, e1, e2]
+    · have hz : ⌊s.frac⌋₊ = 0 := Nat.floor_eq_zero.mpr (not_le.mp h1)
+      simp only [lit_1, h1, if_false, hz, List.drop_zero, Nat.cast_zero, sub_zero]
+
+theorem World.ringSlice_drop (W : World) (a m k : Nat) : (W.ringSlice a m).drop k = W.ringSlice (a + k) m := by
+  apply List.ext_getElem?
+  intro i
+  rw [List.getElem?_drop, W.ringSlice_getElem?, W.ringSlice_getElem?]
+  have : a + (k + i) = a + k + i := by omega
+  rw [this]
+
+
+/-! ### the streaming sound along the walk -/
+
+/-- the streaming sound plays the world `W` through a decoder that meets the `Decoder` contract -/
+structure StreamIn {σ : Type} (W : World) (pos : σ → Nat) (good : σ → Prop) (s : Sys σ ℝ) : Prop where
+  cfg_slice : s.cfg.slice = W.slice
+  cfg_n : s.cfg.numFrames = W.n
+  inv : Dec.Inv W.frames.toList pos good s.ds
+
+/-- … the audio side has made `a` position steps (pop attempts) and the decoder `m` pushes (the pre-seeded
+    entry included): **the ring holds entries `a … m − 1` of the sequence** -/
+structure StreamAt {σ : Type} (W : World) (s : Sys σ ℝ) (a m : Nat) : Prop where
+  ring : s.ring.items = W.ringSlice a m
+  transport : s.transport = W.trAt (m - 1)
+  m_pos : 1 ≤ m
+  played : ∀ k, k + 1 < m → W.pl k = true
+  reached : s.reachedEnd = !W.pl (m - 1)
+
+theorem World.staticStops_none (W : World) (hL : W.EndsAt none) (j : Nat) : W.staticStops j = false := by
+  have : W.pl j = true := hL j
+  simp [World.staticStops, this]
+
+theorem World.staticStops_some (W : World) (L : Nat) (hL : W.EndsAt (some L)) (j : Nat) :
+    W.staticStops j = true ↔ L + 4 ≤ j := by
+  have ht := W.tue_closed (some L) hL j
+  obtain ⟨h1, hpl⟩ := hL
+  simp only [World.staticStops, Bool.and_eq_true, Bool.not_eq_true', beq_iff_eq, hpl j, decide_eq_false_iff_not,
+    Nat.not_lt]
+  simp only [] at ht
+  rw [ht]
+  constructor
+  · rintro ⟨h2, h3⟩
+    by_cases hj0 : j = 0
+    · omega
+    · simp only [hj0, if_false] at h3
+      by_cases hjl : j ≤ L
+      · simp [hjl] at h3
+      · simp only [hjl, if_false] at h3; omega
+  · intro h
+    refine ⟨by omega, ?_⟩
+    have hj0 : ¬ j = 0 := by omega
+    have hjl : ¬ j ≤ L := by omega
+    simp only [hj0, hjl, if_false]; omega
+
+/-- the reach of the decoder in terms of the end of the walk -/
+theorem StreamAt.reached_iff {σ : Type} {W : World} {s : Sys σ ℝ} {a m : Nat} (h : StreamAt W s a m) (L : Nat)
+    (hL : W.EndsAt (some L)) : (s.reachedEnd = true ↔ m = L + 1) ∧ m ≤ L + 1 := by
+  obtain ⟨h1, hpl⟩ := hL
+  have hm := h.m_pos
+  have hle : m ≤ L + 1 := by
+    by_contra hc
+    have := h.played (m - 2) (by omega)
+    rw [hpl] at this
+    simp only [decide_eq_true_eq] at this
+    omega
+  refine ⟨?_, hle⟩
+  rw [h.reached, hpl]
+  simp only [Bool.not_eq_true', decide_eq_false_iff_not, Nat.not_lt]
+  omega
+
+theorem StreamAt.reached_none {σ : Type} {W : World} {s : Sys σ ℝ} {a m : Nat} (h : StreamAt W s a m)
+    (hL : W.EndsAt none) : s.reachedEnd = false := by
+  rw [h.reached, hL (m - 1)]; rfl
+
+/-- the four frames the interpolator sees, when the decoder is ahead: the walk's entries `a … a + 3` -/
+theorem nextFrame_eq {σ : Type} {W : World} (hW : W.Ok) {s : Sys σ ℝ} {a m : Nat} (h : StreamAt W s a m)
+    (hahead : s.reachedEnd = true ∨ a + 4 ≤ m) (i : Nat) (hi : i < 4) :
+    s.nextFrame i = W.vFrame (a + i + 3) := by
+  unfold Sys.nextFrame
+  rw [h.ring, W.ringSlice_getElem?]
+  by_cases hlt : a + i < m
+  · simp only [hlt, if_true]
+    exact W.ringSeq_frame (a + i)
+  · simp only [hlt, if_false]
+    have hre : s.reachedEnd = true := by
+      rcases hahead with h1 | h1
+      · exact h1
+      · omega
+    rw [h.reached] at hre
+    have hp : W.pl (m - 1) = false := by simpa using hre
+    have hm := h.m_pos
+    have hp2 := W.pl_antitone (m - 1) hp (a + i - m)
+    have e : m - 1 + (a + i - m) = a + i - 1 := by omega
+    rw [e] at hp2
+    have hz := W.srcAt_stopped hW (a + i - 1) hp2
+    have hn4 : ¬ a + i + 3 < 4 := by omega
+    have e2 : a + i + 3 - 4 = a + i - 1 := by omega
+    simp [World.vFrame, hn4, e2, hz]
+
+theorem markStopped_of_stopped (c : SoundCore ℝ) (hs : c.psm.playbackState = .stopped) (hsync : c.InSync) :
+    c.markStopped = c := by
+  have hst : c.psm.state = .stopped := by
+    unfold Psm.playbackState at hs
+    cases h : c.psm.state <;> simp_all
+  unfold SoundCore.InSync at hsync
+  cases c with
+  | mk psm startTime shared =>
+    cases psm with
+    | mk state fade =>
+      simp only [] at hst hsync hs
+      subst hst
+      simp [SoundCore.markStopped, SoundCore.syncShared, Psm.markAsStopped, Psm.playbackState, hsync]
+
+
+/-! ### the bisimulation relation and one output frame -/
+
+/-- **the relation**: the static sound's resampler window is the first four ring entries (both sit at step
+    `a` of the walk, the static transport three steps further), same fraction, same parameters, same
+    life-cycle core, same pending commands (none for the decoder), no decoder error -/
+structure Bisim {σ : Type} (W : World) (pos : σ → Nat) (good : σ → Prop) (st : StaticSound ℝ) (s : Sys σ ℝ)
+    (a m : Nat) : Prop where
+  sAt : StaticAt W st (a + 3)
+  tIn : StreamIn W pos good s
+  tAt : StreamAt W s a m
+  frac : st.frac = s.frac
+  sampleRate : st.sampleRate = s.sampleRate
+  volume : st.volume = s.volume
+  playbackRate : st.playbackRate = s.playbackRate
+  panning : st.panning = s.panning
+  core : st.core = s.core
+  cmds : st.cmds = s.cmds
+  noSeek : s.cmds.setLoopRegion = none ∧ s.cmds.seekBy = none ∧ s.cmds.seekTo = none
+  frac_nonneg : 0 ≤ s.frac
+  frac_lt : s.frac < 1
+  inSync : s.core.InSync
+  endStopped : s.reachedEnd = true → m ≤ a → s.core.psm.playbackState = .stopped
+  a_le : s.reachedEnd = false → a ≤ m
+  noErr : s.encounteredError = false
+  cap : s.ring.cap = bufferSize
+
+/-- what the C09 premise says about one output frame: playback rate not negative, and the decoder has
+    buffered the four-frame window plus every frame this output frame steps over (or has reached the end) -/
+structure FrameOk {σ : Type} (s : Sys σ ℝ) (a m : Nat) (t dt : ℝ) (fuel : Nat) : Prop where
+  dt_nonneg : 0 ≤ dt
+  rate_nonneg : 0 ≤ s.playbackRate.interpolatedValue tw64 t
+  rate_sign : signNeg s.playbackRate.value = false
+  fuel_ok : ⌊s.frac + s.fracStep t dt⌋₊ < fuel
+  ahead : s.reachedEnd = true ∨ a + 4 + ⌊s.frac + s.fracStep t dt⌋₊ ≤ m
+
+theorem fracStep_nonneg {σ : Type} (s : Sys σ ℝ) (t dt : ℝ) (hdt : 0 ≤ dt) : 0 ≤ s.fracStep t dt := by
+  unfold Sys.fracStep
+  rw [fmax_real]
+  have h1 : (0 : ℝ) ≤ (KOps.ofNat s.sampleRate : ℝ) := by simp
+  have h2 : (0 : ℝ) ≤ max (s.playbackRate.interpolatedValue tw64 t) (0.0 : ℝ) := by simp
+  exact mul_nonneg (mul_nonneg h1 h2) hdt
+
+theorem fracStep_eq {σ : Type} {st : StaticSound ℝ} {s : Sys σ ℝ} (hsr : st.sampleRate = s.sampleRate)
+    (hpr : st.playbackRate = s.playbackRate) (t dt : ℝ) (hrate : 0 ≤ s.playbackRate.interpolatedValue tw64 t) :
+    st.fracStep t dt = s.fracStep t dt := by
+  unfold StaticSound.fracStep Sys.fracStep
+  rw [hsr, hpr, fmax_real, abs_real, abs_of_nonneg hrate, lit_0, max_eq_left hrate]
+
+theorem shade_eq {σ : Type} {st : StaticSound ℝ} {s : Sys σ ℝ} (hv : st.volume = s.volume)
+    (hp : st.panning = s.panning) (hc : st.core = s.core) (t : ℝ) (f : Frame ℝ) :
+    st.shade t f = s.shade t f := by
+  unfold StaticSound.shade Sys.shade
+  rw [hv, hp, hc]
+
+/-- **one output frame**: same output, and the relation holds again `k = ⌊frac + step⌋` steps further -/
+theorem frame_bisim {σ : Type} {W : World} (hW : W.Ok) {pos : σ → Nat} {good : σ → Prop}
+    {st : StaticSound ℝ} {s : Sys σ ℝ} {a m : Nat} (B : Bisim W pos good st s a m)
+    (t dt : ℝ) (fuel : Nat) (F : FrameOk s a m t dt fuel) :
+    ∃ st' s' out, st.renderFrame fuel t dt = .ok (st', out) ∧ s.renderFrame fuel t dt = .ok (s', out) ∧
+      Bisim W pos good st' s' (a + ⌊s.frac + s.fracStep t dt⌋₊) m ∧
+      s'.playbackRate = s.playbackRate ∧ s'.reachedEnd = s.reachedEnd ∧ s'.sampleRate = s.sampleRate := by
+  have hstep := fracStep_eq B.sampleRate B.playbackRate t dt F.rate_nonneg
+  have hsn := fracStep_nonneg s t dt F.dt_nonneg
+  have h0 : 0 ≤ s.frac + s.fracStep t dt := add_nonneg B.frac_nonneg hsn
+  set k := ⌊s.frac + s.fracStep t dt⌋₊ with hk
+  have hsign : signNeg st.playbackRate.value = false := by rw [B.playbackRate]; exact F.rate_sign
+  -- the static side
+  have hS := StaticSound.renderFrame_spec fuel st t dt (by rw [B.frac, hstep]; exact h0)
+    (by rw [B.frac, hstep]; exact F.fuel_ok)
+  rw [B.frac, hstep, ← hk, static_updN hW k B.sAt hsign] at hS
+  simp only [Except.map, setFrac] at hS
+  -- the streaming side
+  have hring : List.drop k s.ring.items = W.ringSlice (a + k) m := by
+    rw [B.tAt.ring, W.ringSlice_drop]
+  have hT : s.renderFrame fuel t dt = .ok (Sys.checkEnd ({ s with frac := s.frac + s.fracStep t dt - (k : ℝ), ring := { s.ring with items := W.ringSlice (a + k) m } } : Sys σ ℝ), s.shade t s.rawFrame) := by
+    unfold Sys.renderFrame
+    rw [stepPos_spec fuel _ (by simpa using h0) (by simpa using F.fuel_ok)]
+    simp only [← hk, hring]
+  -- the two outputs
+  have hahead0 : s.reachedEnd = true ∨ a + 4 ≤ m := by
+    rcases F.ahead with h | h
+    · exact Or.inl h
+    · exact Or.inr (by omega)
+  have hout : st.shade t (st.resampler.get s.frac) = s.shade t s.rawFrame := by
+    rw [shade_eq B.volume B.panning B.core]
+    congr 1
+    unfold Sys.rawFrame Resampler.get
+    rw [nextFrame_eq hW B.tAt hahead0 0 (by omega), nextFrame_eq hW B.tAt hahead0 1 (by omega),
+      nextFrame_eq hW B.tAt hahead0 2 (by omega), nextFrame_eq hW B.tAt hahead0 3 (by omega), B.sAt.resampler]
+    simp [World.resAt]
+  -- the two cores
+  have hcore : (if 1 ≤ k ∧ W.staticStops (a + 3 + k) = true then st.core.markStopped else st.core)
+      = (Sys.checkEnd ({ s with frac := s.frac + s.fracStep t dt - (k : ℝ), ring := { s.ring with items := W.ringSlice (a + k) m } } : Sys σ ℝ)).core := by
+    unfold Sys.checkEnd
+    simp only []
+    rw [B.core]
+    obtain ⟨L, hL⟩ := W.exists_endsAt hW
+    have hempty : (W.ringSlice (a + k) m).isEmpty = decide (m ≤ a + k) := by
+      have := W.ringSlice_length (a + k) m
+      cases hl : W.ringSlice (a + k) m with
+      | nil => rw [hl] at this; simp at this; simp; omega
+      | cons x xs => rw [hl] at this; simp at this; simp; omega
+    rw [hempty]
+    cases L with
+    | none =>
+      have h1 := W.staticStops_none hL (a + 3 + k)
+      have h2 := B.tAt.reached_none hL
+      simp [h1, h2]
+    | some L =>
+      have h1 := W.staticStops_some L hL (a + 3 + k)
+      obtain ⟨h2, h3⟩ := B.tAt.reached_iff L hL
+      by_cases hre : s.reachedEnd = true
+      · have hm : m = L + 1 := h2.mp hre
+        by_cases hk1 : 1 ≤ k
+        · by_cases hge : m ≤ a + k
+          · have : L + 4 ≤ a + 3 + k := by omega
+            simp [hre, hge, hk1, h1.mpr this]
+          · have : ¬ L + 4 ≤ a + 3 + k := by omega
+            have hs : ¬ W.staticStops (a + 3 + k) = true := fun hc => this (h1.mp hc)
+            simp [hre, hge, hs]
+        · have hk0 : k = 0 := by omega
+          by_cases hge : m ≤ a + k
+          · have hstopped := B.endStopped hre (by omega)
+            have := markStopped_of_stopped s.core hstopped B.inSync
+            have hge' : m ≤ a := by omega
+            simp [hre, hge', hk0, this]
+          · have hge' : ¬ m ≤ a := by omega
+            simp [hre, hge', hk0]
+      · have hre' : s.reachedEnd = false := by simpa using hre
+        have hml : ¬ m = L + 1 := fun hc => hre (h2.mpr hc)
+        have hah : a + 4 + k ≤ m := by
+          rcases F.ahead with h | h
+          · exact absurd h hre
+          · exact h
+        have : ¬ L + 4 ≤ a + 3 + k := by omega
+        have hs : ¬ W.staticStops (a + 3 + k) = true := fun hc => this (h1.mp hc)
+        simp [hre', hs]
+  refine ⟨_, Sys.checkEnd ({ s with frac := s.frac + s.fracStep t dt - (k : ℝ), ring := { s.ring with items := W.ringSlice (a + k) m } } : Sys σ ℝ), _, hS, ?_, ?_, ?_, ?_, ?_⟩
+  · rw [hT, hout]
+  · have hfl := floor_frac_bounds (s.frac + s.fracStep t dt) h0
+    rw [← hk] at hfl
+    have hcs : ∀ x : Sys σ ℝ, (Sys.checkEnd x).frac = x.frac ∧ (Sys.checkEnd x).ring = x.ring ∧
+        (Sys.checkEnd x).cfg = x.cfg ∧ (Sys.checkEnd x).ds = x.ds ∧ (Sys.checkEnd x).transport = x.transport ∧
+        (Sys.checkEnd x).reachedEnd = x.reachedEnd ∧ (Sys.checkEnd x).sampleRate = x.sampleRate ∧
+        (Sys.checkEnd x).volume = x.volume ∧ (Sys.checkEnd x).playbackRate = x.playbackRate ∧
+        (Sys.checkEnd x).panning = x.panning ∧ (Sys.checkEnd x).cmds = x.cmds ∧
+        (Sys.checkEnd x).encounteredError = x.encounteredError := by
+      intro x; unfold Sys.checkEnd; split <;> simp
+    set x : Sys σ ℝ := { s with frac := s.frac + s.fracStep t dt - (k : ℝ), ring := { s.ring with items := W.ringSlice (a + k) m } } with hx
+    obtain ⟨c1, c2, c3, c4, c5, c6, c7, c8, c9, c10, c11, c12⟩ := hcs x
+    have hcoreSync : (Sys.checkEnd x).core.InSync ∧
+        ((Sys.checkEnd x).reachedEnd = true → m ≤ a + k → (Sys.checkEnd x).core.psm.playbackState = .stopped) := by
+      unfold Sys.checkEnd
+      by_cases hc : (x.reachedEnd && x.ring.items.isEmpty) = true
+      · simp only [hc, if_true]
+        have hm := markStopped_isStopped x.core
+        refine ⟨?_, fun _ _ => ?_⟩
+        · unfold SoundCore.InSync; rw [hm.2]; simp [Psm.playbackState, hm.1]
+        · simp [Psm.playbackState, hm.1]
+      · simp only [hc]
+        refine ⟨B.inSync, fun hre hle => ?_⟩
+        exfalso; apply hc
+        have : x.ring.items = [] := by
+          show W.ringSlice (a + k) m = []
+          exact W.ringSlice_empty _ _ hle
+        have hre' : x.reachedEnd = true := by simpa using hre
+        simp [hre', this]
+    exact {
+      sAt := { frames := B.sAt.frames, slice := B.sAt.slice, reverse := B.sAt.reverse,
+               transport := by show W.trAt (a + 3 + k) = W.trAt (a + k + 3); congr 1; omega,
+               resampler := by show W.resAt (a + 3 + k) = W.resAt (a + k + 3); congr 1; omega }
+      tIn := { cfg_slice := by rw [c3]; exact B.tIn.cfg_slice, cfg_n := by rw [c3]; exact B.tIn.cfg_n,
+               inv := by rw [c4]; exact B.tIn.inv }
+      tAt := { ring := by rw [c2], transport := by rw [c5]; exact B.tAt.transport, m_pos := B.tAt.m_pos,
+               played := B.tAt.played, reached := by rw [c6]; exact B.tAt.reached }
+      frac := by rw [c1]
+      sampleRate := by rw [c7]; exact B.sampleRate
+      volume := by rw [c8]; exact B.volume
+      playbackRate := by rw [c9]; exact B.playbackRate
+      panning := by rw [c10]; exact B.panning
+      core := hcore
+      cmds := by rw [c11]; exact B.cmds
+      noSeek := by rw [c11]; exact B.noSeek
+      frac_nonneg := by rw [c1]; exact hfl.1
+      frac_lt := by rw [c1]; exact hfl.2
+      inSync := hcoreSync.1
+      endStopped := hcoreSync.2
+      a_le := by
+        rw [c6]; intro hre
+        rcases F.ahead with h | h
+        · rw [hre] at h; cases h
+        · omega
+      noErr := by rw [c12]; exact B.noErr
+      cap := by rw [c2]; exact B.cap }
+  · exact (by unfold Sys.checkEnd; split <;> rfl)
+  · exact (by unfold Sys.checkEnd; split <;> rfl)
+  · exact (by unfold Sys.checkEnd; split <;> rfl)
+
+end Streaming
 end K
